@@ -186,7 +186,7 @@ def run_marginal_sample1(case):
     tr["bounds"] = [list(b) for b in case["bounds"]]
     tr.update({"decided": True, "tally": [], "why": "", "leaves": 0, "not_single": False})
     Ws = [sum(F[i].get(k, 0) for k in range(b[0], b[1] + 1)) for i, b in enumerate(case["bounds"])]
-    grid = lambda idx: Ws[idx] if idx < len(Ws) else 0
+    grid = lambda idx: Ws[idx % len(Ws)] if Ws else 0       # every (re)build draws one uniform number per topology, in order
     from fractions import Fraction
     tally = {}
     orc = Oracle()
@@ -209,6 +209,20 @@ def run_marginal_sample1(case):
                 break
             k = tuple(int(v) for v in keys[0])
             tally[k] = tally.get(k, Fraction(0)) + wgt
+            if tr["leaves"] % 5 == 1:
+                # the aligned grid is exact only if each uniform draw is used through comparisons with multiples of 1/W_i:
+                # replay the leaf with the draws moved to both ends of their cells
+                plan = [t[2] for t in trail]
+                for cell in (0.002, 0.998):
+                    o2 = Oracle(); o2.cell = cell
+                    try:
+                        k2 = [tuple(int(v) for v in kk) for kk in o2.run_directed(plan, build, grid=grid).jdd]
+                    except Exception:
+                        k2 = None
+                    if k2 != [k]:
+                        tr["decided"], tr["why"] = False, "the sample depends on the uniform draws beyond comparisons with multiples of 1/W_i (grid not exact)"
+                if not tr["decided"]:
+                    break
         # exact probability of each tuple as an integer over prod_i W_i (whatever number of draws the code makes)
         for k in list(tally):
             x = tally[k] * total_w
